@@ -8,6 +8,7 @@ model: the flow chunked into consecutive blocks.  DESIGN.md 3, C16.
 import itertools
 
 import lena.core
+import lena.flow
 
 from ..kernel import RunResult, StepBudget, StepBudgetExceeded, summarize, exception_origin
 from ..seams.flow import Tok, ProbeFR, ProbeCall
@@ -41,7 +42,7 @@ ASSUMPTIONS = [
     "judged there only when B is a multiple of n or covers the flow",
 ]
 FAULT_KINDS = ["request-off-block-boundary", "fill-after-complete-block", "request-with-nothing-filled",
-               "split-block-not-dividing", "double-request"]
+               "split-block-not-dividing", "double-request", "sibling-fill-request-branch-stops"]
 EXPECTED_PROBES = ["push-buffer_output-overflow", "push-buffer_input-overflow", "remainder-yielded",
                    "split-B-coprime-to-n", "split-B-multiple-of-n", "fillrequestseq-push", "reset-on",
                    "watchdog-guarded-calls"]
@@ -150,6 +151,8 @@ def gen_scenario(tape):
         sc.driver = "split"
         sc.sib_before = tape.draw(2, "sib-before")
         sc.sib_after = tape.draw(2, "sib-after")
+        # a fill/request sibling in front of the adapter that signals LenaStopFill after k values
+        sc.stopper = tape.draw(6, "stopper-k") if tape.chance(1, 4, "stopping-fr-sibling") else None
     # request points for the push history: position p means "after p fills"
     sc.reqs = []
     if sc.driver == "push":
@@ -252,7 +255,9 @@ def run(tape):
     res.say("FillRequest(%s probe, bufsize=%d, reset=%s, buffer_%s, yield_on_remainder=%s), wrapper=%s%s, "
             "flow of %d values" % (sc.kind, sc.n, sc.reset, sc.buffer, sc.remainder, sc.wrapper,
                                    " pre=%d post=%d" % (sc.npre, sc.npost) if sc.wrapper == "seq" else
-                                   (" B=%s siblings %d/%d" % (sc.B, sc.sib_before, sc.sib_after)
+                                   (" B=%s siblings %d/%d%s" % (sc.B, sc.sib_before, sc.sib_after,
+                                                                 "" if getattr(sc, "stopper", None) is None
+                                                                 else ", stopping fill/request sibling Slice(%d)" % sc.stopper)
                                     if sc.wrapper == "split" else ""), sc.len))
     values = list(range(sc.len))
     cfg = "%s:%s" % ("buffer_" + sc.buffer, "remainder" if sc.remainder else "blocks")
@@ -430,6 +435,13 @@ def drive_split(sc, res, values, cfg):
     branches = []
     for j in range(sc.sib_before):
         branches.append(lena.core.Sequence(lambda v, j=j: ("sibA%d" % j, v.serial)))
+    if getattr(sc, "stopper", None) is not None:
+        # it is removed from the Split when it stops; the adapter behind it must still get
+        # every value of every block
+        res.fault("sibling-fill-request-branch-stops")
+        branches.append((lena.flow.Slice(sc.stopper),
+                         lena.core.FillRequest(lena.flow.StoreFilled(), bufsize=1, reset=True,
+                                               buffer_input=True)))
     branches.append(adapter)
     for j in range(sc.sib_after):
         branches.append(lena.core.Sequence(lambda v, j=j: ("sibB%d" % j, v.serial)))
@@ -443,6 +455,8 @@ def drive_split(sc, res, values, cfg):
         return
     got = [x for x in got if not (isinstance(x, tuple) and isinstance(x[0], str)
                                   and x[0].startswith("sib"))]
+    # results of the stopping sibling are lists of tokens
+    got = [x for x in got if not isinstance(x, list)]
     log.ev("result", "split", summarize(got))
     if B is not None and B < len(values):
         if B % n == 0:
